@@ -609,6 +609,15 @@ def _split(test, pol):
                 yield from _split(v, False)
             return
     yield (test, pol)
+    # the complementary spelling is the same fact: (a != b, p) == (a == b, not p); likewise is / is not, in / not in
+    # (ordering comparisons are NOT complemented: `not a > b` differs from `a <= b` for NaN)
+    if isinstance(test, ast.Compare) and len(test.ops) == 1 and type(test.ops[0]) in _COMPLEMENT:
+        alt = ast.Compare(left=test.left, ops=[_COMPLEMENT[type(test.ops[0])]()], comparators=test.comparators)
+        ast.copy_location(alt, test)
+        yield (alt, not pol)
+
+
+_COMPLEMENT = {ast.Eq: ast.NotEq, ast.NotEq: ast.Eq, ast.Is: ast.IsNot, ast.IsNot: ast.Is, ast.In: ast.NotIn, ast.NotIn: ast.In}
 
 
 def fact_holds(facts, pred):
